@@ -1,6 +1,47 @@
 import WhVerif.Util.Proto
+import WhVerif.Spec.C02Raw
+import WhVerif.Driver.C01
 namespace WhVerif.Driver.C02
-open Lean WhVerif.Proto
-/-- ops of property C02 are named `c02.<name>`; return `none` for ops that are not ours -/
-def handle (_op : String) (_j : Json) : Option Json := none
+open Lean WhVerif.Proto WhVerif.C01 WhVerif.C02
+
+def pair? (j : Json) : Option (Nat × Nat) := do
+  match ← asArr? j with
+  | [a, b] => some (← asNat? a, ← asNat? b)
+  | _ => none
+
+def bool? : Json → Option Bool
+  | Json.bool b => some b
+  | _ => none
+
+/-- ops of property C02 are named `c02.<name>`; return `none` for ops that are not ours.
+    `c02.errfree {"raw": R, "truth": [[pos, allele on haplotype 0]…], "src": [true = haplotype 1, …]}`: the precondition of the
+    solver theorems (`rawPreconditionB`, sound by `Props.C02.checked_precondition_sound`) on a traced solver input, with its
+    parts for diagnosis; `c02.select {"cands": [reads], "sel": [indices]}`: the kept reads (`selectReads`) -/
+def handle (op : String) (j : Json) : Option Json :=
+  if op == "c02.errfree" then
+    match (getObj? j "raw").bind WhVerif.Driver.C01.parseRaw, (getList? j "truth").bind (·.mapM pair?),
+          (getList? j "src").bind (·.mapM bool?) with
+    | some R, some truth, some src =>
+      let positions := R.positions.getD (defaultPositions R.reads)
+      let hapAt := hapAtOf truth
+      let srcF : Nat → Bool := fun k => src.getD k false
+      some (Json.mkObj [
+        ("ok", Json.bool (rawPreconditionB positions R.reads R.nind R.trios R.geno R.recomb hapAt srcF)),
+        ("mkinst", Json.bool (mkInst positions R.reads R.nind R.trios R.geno R.recomb).isSome),
+        ("geno", Json.bool (R.geno == hetGeno positions.length)),
+        ("truth01", Json.bool (positions.all fun p => decide (hapAt p ≤ 1))),
+        ("errfree", Json.bool (rawErrFreeB R.reads hapAt srcF))])
+    | _, _, _ => some badInput
+  else if op == "c02.select" then
+    match (getObj? j "cands").bind (fun c => (getObj? (Json.mkObj [("reads", c), ("nind", ofNat 1), ("trios", Json.arr #[]),
+              ("geno", Json.arr #[]), ("recomb", Json.arr #[])]) "reads")), getNatList? j "sel" with
+    | some _, some sel =>
+      match (getObj? j "cands").bind (fun c => WhVerif.Driver.C01.parseRaw (Json.mkObj [("reads", c), ("nind", ofNat 1),
+              ("trios", Json.arr #[]), ("geno", Json.arr #[]), ("recomb", Json.arr #[])])) with
+      | some R =>
+        some (ofList (fun (r : RawRead) => Json.mkObj [("ind", ofNat r.ind),
+          ("variants", ofList (fun v => ofNatList [v.1, v.2.1, v.2.2]) r.variants)]) (selectReads R.reads sel))
+      | none => some badInput
+    | _, _ => some badInput
+  else none
 end WhVerif.Driver.C02
